@@ -1,8 +1,10 @@
 package ref
 
 import (
+	"bytes"
 	"encoding/binary"
 	"errors"
+	"fmt"
 
 	"github.com/libsv/go-bt/v2"
 	"github.com/libsv/go-bt/v2/bscript"
@@ -35,6 +37,8 @@ type Tx struct {
 	In       []In   `json:"in"`
 	Out      []Out  `json:"out"`
 	LockTime uint32 `json:"locktime"`
+	// Damage is set by Snapshot only: the first canary of the library object found overwritten.
+	Damage string `json:"-"`
 }
 
 // VarInt writes v minimally.
@@ -326,23 +330,77 @@ func Ambiguous(tx Tx) bool {
 }
 
 // ToLib builds the library object for a model through the exported API only.
+// Canary returns a copy of b that owns 16 bytes of spare capacity holding a self-describing
+// pattern (8 magic bytes and the length of b). Code that is handed the slice and appends to it
+// without taking ownership - `append(callersSlice, more...)` - writes into that spare capacity:
+// the caller's slice header does not change, the bytes behind it do. CanaryDamaged tells.
+func Canary(b []byte) []byte {
+	buf := make([]byte, len(b)+16)
+	copy(buf, b)
+	copy(buf[len(b):], canaryTail(len(b)))
+	return buf[:len(b)]
+}
+
+func canaryTail(n int) []byte {
+	t := []byte{0xc5, 0x3a, 0x96, 0x69, 0x5c, 0xa3, 0x0f, 0xf0, 0, 0, 0, 0, 0, 0, 0, 0}
+	binary.LittleEndian.PutUint64(t[8:], uint64(n))
+	return t
+}
+
+// CanaryDamaged reports whether a slice made by Canary still has its original length and
+// capacity but no longer its pattern. Slices that were legitimately replaced, grown or
+// re-allocated (different spare capacity) are not judged.
+func CanaryDamaged(b []byte) bool {
+	if cap(b)-len(b) != 16 {
+		return false
+	}
+	return !bytes.Equal(b[len(b):cap(b)], canaryTail(len(b)))
+}
+
+// CanaryDamage names the first script or txid of a library transaction built by ToLib whose
+// spare capacity was written to ("" if none).
+func CanaryDamage(tx *bt.Tx) string {
+	for i, in := range tx.Inputs {
+		if in == nil {
+			continue
+		}
+		if in.UnlockingScript != nil && CanaryDamaged(*in.UnlockingScript) {
+			return fmt.Sprintf("input %d: the bytes behind the caller's unlocking script slice (its spare capacity) were overwritten: %x", i, []byte(*in.UnlockingScript)[len(*in.UnlockingScript):cap(*in.UnlockingScript)])
+		}
+		if in.PreviousTxScript != nil && CanaryDamaged(*in.PreviousTxScript) {
+			return fmt.Sprintf("input %d: the bytes behind the caller's previous-script slice (its spare capacity) were overwritten: %x", i, []byte(*in.PreviousTxScript)[len(*in.PreviousTxScript):cap(*in.PreviousTxScript)])
+		}
+		if id := in.PreviousTxID(); CanaryDamaged(id) {
+			return fmt.Sprintf("input %d: the bytes behind the caller's previous-txid slice were overwritten", i)
+		}
+	}
+	for i, o := range tx.Outputs {
+		if o != nil && o.LockingScript != nil && CanaryDamaged(*o.LockingScript) {
+			return fmt.Sprintf("output %d: the bytes behind the caller's locking script slice (its spare capacity) were overwritten: %x", i, []byte(*o.LockingScript)[len(*o.LockingScript):cap(*o.LockingScript)])
+		}
+	}
+	return ""
+}
+
+// ToLib builds the library object of a model. Every byte slice it hands over is the caller's
+// own and carries a canary in its spare capacity (see Canary).
 func ToLib(m Tx) *bt.Tx {
 	tx := &bt.Tx{Version: m.Version, LockTime: m.LockTime, Inputs: make([]*bt.Input, 0, len(m.In))}
 	for _, in := range m.In {
 		i := &bt.Input{PreviousTxOutIndex: in.Vout, SequenceNumber: in.Seq, PreviousTxSatoshis: in.PrevSats}
-		if err := i.PreviousTxIDAdd(append([]byte{}, in.TxID...)); err != nil {
+		if err := i.PreviousTxIDAdd(Canary(in.TxID)); err != nil {
 			panic("ref.ToLib: model with invalid txid: " + err.Error())
 		}
 		if !in.UnlockNil {
-			i.UnlockingScript = bscript.NewFromBytes(append([]byte{}, in.Unlock...))
+			i.UnlockingScript = bscript.NewFromBytes(Canary(in.Unlock))
 		}
 		if !in.PrevNil {
-			i.PreviousTxScript = bscript.NewFromBytes(append([]byte{}, in.PrevScript...))
+			i.PreviousTxScript = bscript.NewFromBytes(Canary(in.PrevScript))
 		}
 		tx.Inputs = append(tx.Inputs, i)
 	}
 	for _, o := range m.Out {
-		tx.Outputs = append(tx.Outputs, &bt.Output{Satoshis: o.Sats, LockingScript: bscript.NewFromBytes(append([]byte{}, o.Script...))})
+		tx.Outputs = append(tx.Outputs, &bt.Output{Satoshis: o.Sats, LockingScript: bscript.NewFromBytes(Canary(o.Script))})
 	}
 	return tx
 }
